@@ -64,9 +64,9 @@ func vfbGenScenario(prop string, idx int, quickSchemes int) vfbScenario {
 		nt = vfbNT[1+rng.Intn(3)]
 	}
 	sc := vfbScenario{Index: idx, Scheme: schemes[idx%len(schemes)].Name, N: nt[0], Thr: nt[1],
-		Backend: []string{"bolt-trimmed", "bolt-untrimmed", "memdb"}[(idx/len(schemes))%3],
+		Backend: []string{"bolt-trimmed", "bolt-untrimmed", "memdb", "mixed"}[(idx/len(schemes))%4],
 		PeriodS: rng.Range(1, 4), Rounds: rng.Range(6, vfPick(14, 30)), Seed: seed, Adversary: true}
-	if sc.Backend == "memdb" {
+	if sc.Backend == "memdb" || sc.Backend == "mixed" {
 		sc.MemCap = []int{10, 12, 2000}[rng.Intn(3)]
 	}
 	sc.CatchupS = []int{0, 1, sc.PeriodS}[rng.Intn(3)]
